@@ -274,7 +274,8 @@ pub struct Case {
     /// first-glyph layout: 0 contiguous (format 2, one range), 1 every other glyph (format 1),
     /// 2 runs of five with gaps (format 2, many ranges)
     pub cov: u8,
-    /// filler lookups (each ~33 KB) placed before and after the lookup under test
+    /// filler lookups (each ~33 KB) placed before and after the lookup under test; 3 = three fillers
+    /// of which the first is ~87 KB and is itself split
     pub filler: u8,
     /// 0: through the builder; 1: direct construction of the write-fonts table (needed for style 3)
     pub direct: u8,
@@ -294,6 +295,21 @@ impl Case {
     fn class(&self) -> String {
         if self.family == "mark_base_shared" {
             format!("mark2base shared-anchor pattern={} cov={} filler={}", ["all-distinct", "one-anchor-per-base", "pairwise-shared", "shared-device"][self.style as usize % 4], self.cov, self.filler)
+        } else if self.family == "split_slots" {
+            format!(
+                "split_slots route={} kind={} filler={}",
+                ["PairPosBuilder(format 2)", "hand-built format 2", "hand-built format 1"][self.direct as usize % 3],
+                ["Device", "VariationIndex", "mixed"][self.style as usize % 3],
+                self.filler
+            )
+        } else if self.family == "pair2_multi" {
+            format!("pair2_multi layout={} route={} filler={}", ["block", "strided", "varied"][(self.last >> 8) as usize % 3], if self.direct == 1 { "hand-built" } else { "PairPosBuilder" }, self.filler)
+        } else if self.family == "subtable_order" {
+            format!("subtable_order arrangement={} filler={}", ["small,BIG1,small", "BIG1,small format 2", "BIG2,small", "small,BIG2", "builder: glyph pairs + class rule", "builder: two value formats"][self.style as usize % 6], self.filler)
+        } else if self.family == "pair1_shared" {
+            format!("pair1_shared filler={}", self.filler)
+        } else if self.family == "mark_base_split_dev" {
+            format!("mark_base_split_dev kind={} filler={}", ["Device", "VariationIndex", "mixed"][self.style as usize % 3], self.filler)
         } else if self.family.ends_with("threshold") {
             format!("{} style={} cov={} filler={} {}", self.family, self.style, self.cov, self.filler, if self.direct == 1 { "direct" } else { "builder" })
         } else {
@@ -312,17 +328,20 @@ fn first_glyph(cov: u8, i: u32) -> u16 {
         0 => 100 + i,
         1 => 100 + 2 * i,
         // runs of five with one-glyph gaps: format 2 with many ranges (5 glyphs cost 6 < 10 bytes)
-        _ => 100 + i + i / 5,
+        2 => 100 + i + i / 5,
+        // contiguous, in the upper half of the 16-bit range (above every second glyph)
+        _ => 61000 + i,
     }) as u16
 }
 fn second_glyph(j: u32) -> u16 {
     (30000 + 2 * j) as u16
 }
 
-/// filler lookup: 30 first glyphs x 273 seconds of plain pairs on its own glyph block
-fn filler_lookup(n: u32, model: &mut PairModel) -> w::PositionLookup {
+/// filler lookup: `rows` (30: about 33 KB; 80: about 87 KB, must itself be split) first glyphs x 273
+/// seconds of plain pairs on its own glyph block
+fn filler_lookup(n: u32, rows: u32, model: &mut PairModel) -> w::PositionLookup {
     let mut b = PairPosBuilder::default();
-    for i in 0..30u32 {
+    for i in 0..rows {
         for j in 0..273u32 {
             let (e, (b1, b2)) = rule_values(0, 1000 * (n + 1) + i, j);
             let (g1, g2) = ((20000 + 100 * n + i) as u16, second_glyph(j));
@@ -736,6 +755,332 @@ fn build_case(c: &Case) -> (w::PositionLookup, Expect) {
             let subs = b.build(&mut vs);
             (w::PositionLookup::MarkToBase(wl::Lookup::new(wl::LookupFlag::empty(), subs)), Expect::MarkBase { marks, bases })
         }
+        // SPLIT x DEVICE SLOTS. k rows x m columns of pair rules whose value records carry sparse
+        // device slots: `last` = mask1 | mask2 << 4 (device slots of the value FORMAT of record 1 / 2:
+        // bit 0 xPla, 1 yPla, 2 xAdv, 3 yAdv); in every record each slot of the mask is non-null or
+        // null by a pattern that cycles through all 2^|mask| subsets along every row, so that for
+        // every two slots of the format "exactly one of them non-null" occurs in every split piece.
+        // Content is distinct per (slot, record, rule). style = kind (0 Device, 1 VariationIndex,
+        // 2 Device in even / VariationIndex in odd slots). direct = route: 1 hand-built PairPos
+        // format 2, 0 PairPosBuilder::insert_classes (format 2; Device only), 2 hand-built PairPos
+        // format 1. k is chosen by the planner so that the sub-table must be split.
+        "split_slots" => {
+            let (k, mm) = (c.a as u32, c.b as u32);
+            let masks = [(c.last & 15) as u8, ((c.last >> 4) & 15) as u8];
+            let mut m = PairModel::default();
+            match c.direct {
+                1 => {
+                    let cov: wl::CoverageTable = (0..k).map(|i| gid(first_glyph(c.cov, i))).collect();
+                    let cd1: wl::ClassDef = (1..k).map(|i| (gid(first_glyph(c.cov, i)), i as u16)).collect();
+                    let cd2: wl::ClassDef = (0..mm).map(|j| (gid(second_glyph(j)), j as u16 + 1)).collect();
+                    let (f1, f2) = split_formats(c.style, masks);
+                    let zero = w::Class2Record::new(w::ValueRecord::new().with_explicit_value_format(f1), w::ValueRecord::new().with_explicit_value_format(f2));
+                    let mut rows = vec![];
+                    for i in 0..k {
+                        let mut row = vec![zero.clone()];
+                        for j in 0..mm {
+                            let (e, (w1, w2)) = split_direct(c.style, masks, i, j, false);
+                            m.add_glyph_rule(first_glyph(c.cov, i), second_glyph(j), e);
+                            row.push(w::Class2Record::new(w1.with_explicit_value_format(f1), w2.with_explicit_value_format(f2)));
+                        }
+                        rows.push(w::Class1Record::new(row));
+                    }
+                    let subs = vec![w::PairPos::format_2(cov, cd1, cd2, rows)];
+                    (w::PositionLookup::Pair(wl::Lookup::new(wl::LookupFlag::empty(), subs)), Expect::Pair(m))
+                }
+                2 => {
+                    let cov: wl::CoverageTable = (0..k).map(|i| gid(first_glyph(c.cov, i))).collect();
+                    let (f1, f2) = split_formats(c.style, masks);
+                    let mut sets = vec![];
+                    for i in 0..k {
+                        let mut recs = vec![];
+                        for j in 0..mm {
+                            let (e, (w1, w2)) = split_direct(c.style, masks, i, j, false);
+                            m.add_glyph_rule(first_glyph(c.cov, i), second_glyph(j), e);
+                            recs.push(w::PairValueRecord::new(gid(second_glyph(j)), w1.with_explicit_value_format(f1), w2.with_explicit_value_format(f2)));
+                        }
+                        sets.push(w::PairSet::new(recs));
+                    }
+                    let subs = vec![w::PairPos::format_1(cov, sets)];
+                    (w::PositionLookup::Pair(wl::Lookup::new(wl::LookupFlag::empty(), subs)), Expect::Pair(m))
+                }
+                _ => {
+                    let mut b = PairPosBuilder::default();
+                    for i in 0..k {
+                        for j in 0..mm {
+                            let (g1, g2) = (first_glyph(c.cov, i), second_glyph(j));
+                            let (e, (b1, b2)) = split_builder(masks, i, j);
+                            let s1: IntSet<GlyphId16> = [gid(g1)].into_iter().collect();
+                            let s2: IntSet<GlyphId16> = [gid(g2)].into_iter().collect();
+                            b.insert_classes(s1, b1, s2, b2);
+                            m.add_glyph_rule(g1, g2, e);
+                        }
+                    }
+                    let subs = b.build(&mut vs);
+                    (w::PositionLookup::Pair(wl::Lookup::new(wl::LookupFlag::empty(), subs)), Expect::Pair(m))
+                }
+            }
+        }
+        // MULTI-GLYPH CLASSES in a PairPos format 2 that must be split. k first classes of g glyphs
+        // (`last` = g | layout << 8: layout 0 one contiguous block per class, 1 strided: class i =
+        // {100 + t k + i}, so every class has g ranges and the coverage is one run, 2 blocks of
+        // varying size 1 + (5 i) mod g, which makes ClassDefBuilder's size-first ordering permute the
+        // classes) x m second classes of three glyphs; every class pair has a rule (value style
+        // `style`). direct = 0: PairPosBuilder::insert_classes, 1: hand-built (class i has id i;
+        // class 0's glyphs are covered but absent from the class def).
+        "pair2_multi" => {
+            let (k, mm) = (c.a as u32, c.b as u32);
+            let (g, layout) = ((c.last & 255) as u32, (c.last >> 8) as u32);
+            let mut m = PairModel::default();
+            let mut start = 100u32;
+            let mut c1s: Vec<BTreeSet<u16>> = vec![];
+            for i in 0..k {
+                let set: BTreeSet<u16> = match layout {
+                    0 => (0..g).map(|t| (100 + i * g + t) as u16).collect(),
+                    1 => (0..g).map(|t| (100 + t * k + i) as u16).collect(),
+                    _ => {
+                        let n = 1 + (5 * i) % g;
+                        let s: BTreeSet<u16> = (0..n).map(|t| (start + t) as u16).collect();
+                        start += n + (i % 2); // a one-glyph gap after every other class
+                        s
+                    }
+                };
+                c1s.push(set);
+            }
+            let c2s: Vec<BTreeSet<u16>> = (0..mm).map(|j| (0..3).map(|t| second_glyph(3 * j + t)).collect()).collect();
+            if c.direct == 1 {
+                let cov: wl::CoverageTable = c1s.iter().flatten().map(|g| gid(*g)).collect::<BTreeSet<_>>().into_iter().collect();
+                let cd1: wl::ClassDef = c1s.iter().enumerate().skip(1).flat_map(|(i, s)| s.iter().map(move |g| (gid(*g), i as u16))).collect();
+                let cd2: wl::ClassDef = c2s.iter().enumerate().flat_map(|(j, s)| s.iter().map(move |g| (gid(*g), j as u16 + 1))).collect();
+                let (_, (f1, f2)) = direct_values(c.style, 0, 0);
+                let zero = w::Class2Record::new(w::ValueRecord::new().with_explicit_value_format(f1.format()), w::ValueRecord::new().with_explicit_value_format(f2.format()));
+                let mut rows = vec![];
+                for i in 0..k {
+                    let mut row = vec![zero.clone()];
+                    for j in 0..mm {
+                        let (e, (w1, w2)) = direct_values(c.style, i, j);
+                        m.add_class_rule(&c1s[i as usize], &c2s[j as usize], e);
+                        row.push(w::Class2Record::new(w1, w2));
+                    }
+                    rows.push(w::Class1Record::new(row));
+                }
+                let subs = vec![w::PairPos::format_2(cov, cd1, cd2, rows)];
+                return (w::PositionLookup::Pair(wl::Lookup::new(wl::LookupFlag::empty(), subs)), Expect::Pair(m));
+            }
+            let mut b = PairPosBuilder::default();
+            for i in 0..k {
+                for j in 0..mm {
+                    let (e, (b1, b2)) = rule_values(c.style, i, j);
+                    let s1: IntSet<GlyphId16> = c1s[i as usize].iter().map(|g| gid(*g)).collect();
+                    let s2: IntSet<GlyphId16> = c2s[j as usize].iter().map(|g| gid(*g)).collect();
+                    b.insert_classes(s1, b1, s2, b2);
+                    m.add_class_rule(&c1s[i as usize], &c2s[j as usize], e);
+                }
+            }
+            let subs = b.build(&mut vs);
+            (w::PositionLookup::Pair(wl::Lookup::new(wl::LookupFlag::empty(), subs)), Expect::Pair(m))
+        }
+        // SUB-TABLE ORDER across a split. Hand-built lookups of several sub-tables whose rules overlap,
+        // so that first-match depends on the split pieces staying at the position of the sub-table
+        // they replace. BIG = k first glyphs x 100 seconds (format 1) or k x 33 singleton classes
+        // (format 2), large enough to be split. `style` = arrangement:
+        // 0: [X small format 1, BIG format 1, Y small format 1] (X, Y: pairs of BIG's first/last/middle
+        //    first glyphs with seconds inside and outside BIG, other values),
+        // 1: [BIG format 1, small format 2 covering every first glyph of BIG, one rule for all seconds],
+        // 2: [BIG format 2, Y small format 1] (BIG covers its first glyphs for every second glyph, so
+        //    Y only shows for a first glyph outside BIG),
+        // 3: [X small format 1, BIG format 2].
+        "subtable_order" => {
+            let k = c.a as u32;
+            let mut m = PairModel::default();
+            let plain = |adv: i16| -> ((RVal, RVal), (w::ValueRecord, w::ValueRecord)) {
+                let mut e1 = RVal::default();
+                e1.v[2] = adv;
+                ((e1, RVal::default()), (w::ValueRecord::new().with_x_advance(adv), w::ValueRecord::new()))
+            };
+            let firsts: Vec<u16> = (0..k).map(|i| first_glyph(c.cov, i)).collect();
+            let outside = first_glyph(c.cov, k + 3);
+            // the small format-1 sub-tables: first glyphs {first, middle, last of BIG, one outside}
+            // x seconds {0, 50, 99 for X / 1, 51, 98 for Y (inside BIG), 200 + which (outside BIG)}
+            let small = |which: u32, m: &mut PairModel, record: bool| -> w::PairPos {
+                let fs: BTreeSet<u16> = [firsts[0], firsts[k as usize / 2], firsts[k as usize - 1], outside].into();
+                let mut sets = vec![];
+                for (a, g1) in fs.iter().enumerate() {
+                    let mut recs = vec![];
+                    for (bq, j) in [which, 50 + which, 99 - which, 200 + which].iter().enumerate() {
+                        let (e, (w1, w2)) = plain(20000 + 1000 * which as i16 + 10 * a as i16 + bq as i16);
+                        if record {
+                            m.add_glyph_rule(*g1, second_glyph(*j), e);
+                        }
+                        recs.push(w::PairValueRecord::new(gid(second_glyph(*j)), w1, w2));
+                    }
+                    sets.push(w::PairSet::new(recs));
+                }
+                w::PairPos::format_1(fs.iter().map(|g| gid(*g)).collect(), sets)
+            };
+            let big1 = |m: &mut PairModel| -> w::PairPos {
+                let mut sets = vec![];
+                for i in 0..k {
+                    let mut recs = vec![];
+                    for j in 0..100u32 {
+                        let (e, (w1, w2)) = plain(((i * 7 + j) % 15000) as i16 + 1);
+                        m.add_glyph_rule(firsts[i as usize], second_glyph(j), e);
+                        recs.push(w::PairValueRecord::new(gid(second_glyph(j)), w1, w2));
+                    }
+                    sets.push(w::PairSet::new(recs));
+                }
+                w::PairPos::format_1(firsts.iter().map(|g| gid(*g)).collect(), sets)
+            };
+            // every second glyph a later sub-table or a query could use
+            let all_seconds: Vec<u16> = neighbours((0..100u32).chain([200, 201, 300]).map(second_glyph));
+            // BIG format 2: class1 i = {firsts[i]} (class 0 = firsts[0], covered, absent from the class
+            // def), class2 j + 1 = {second_glyph(j)} for j < 33; it answers for EVERY second glyph
+            let big2 = |m: &mut PairModel| -> w::PairPos {
+                let cd1: wl::ClassDef = (1..k).map(|i| (gid(firsts[i as usize]), i as u16)).collect();
+                let cd2: wl::ClassDef = (0..33u32).map(|j| (gid(second_glyph(j)), j as u16 + 1)).collect();
+                let zero = w::Class2Record::new(w::ValueRecord::new().with_explicit_value_format(w::ValueFormat::X_ADVANCE), w::ValueRecord::new());
+                let mut rows = vec![];
+                for i in 0..k {
+                    let mut row = vec![zero.clone()];
+                    for j in 0..33u32 {
+                        let (e, (w1, w2)) = plain(((i * 7 + j) % 15000) as i16 + 1);
+                        m.add_glyph_rule(firsts[i as usize], second_glyph(j), e);
+                        row.push(w::Class2Record::new(w1, w2));
+                    }
+                    rows.push(w::Class1Record::new(row));
+                    // the zero records shadow every later sub-table for this first glyph
+                    for g2 in &all_seconds {
+                        m.add_glyph_rule(firsts[i as usize], *g2, (RVal::default(), RVal::default()));
+                    }
+                }
+                w::PairPos::format_2(firsts.iter().map(|g| gid(*g)).collect(), cd1, cd2, rows)
+            };
+            if c.style >= 4 {
+                // through PairPosBuilder. 4: glyph pairs BIG1 + one class rule over all first glyphs x
+                // seconds {0, 50, 300} (the builder puts glyph-pair sub-tables first). 5: glyph pairs
+                // whose records have two value formats (seconds < 50 xAdv only, >= 50 xAdv+yPla|xPla):
+                // two format-1 sub-tables covering the same first glyphs, both split
+                let mut b = PairPosBuilder::default();
+                for i in 0..k {
+                    for j in 0..100u32 {
+                        let st = if c.style == 5 && j >= 50 { 1 } else { 0 };
+                        let (e, (b1, b2)) = rule_values(st, i, j);
+                        b.insert_pair(gid(firsts[i as usize]), b1, gid(second_glyph(j)), b2);
+                        m.add_glyph_rule(firsts[i as usize], second_glyph(j), e);
+                    }
+                }
+                if c.style == 4 {
+                    let (e, (b1, b2)) = rule_values(0, 26000, 0);
+                    let s1: IntSet<GlyphId16> = firsts.iter().map(|g| gid(*g)).collect();
+                    let s2: IntSet<GlyphId16> = [0u32, 50, 300].iter().map(|j| gid(second_glyph(*j))).collect();
+                    b.insert_classes(s1, b1, s2, b2);
+                    for g1 in &firsts {
+                        for j in [0u32, 50, 300] {
+                            m.add_glyph_rule(*g1, second_glyph(j), e.clone());
+                        }
+                    }
+                }
+                m.seconds.extend([200u32, 201, 300].map(second_glyph));
+                let subs = b.build(&mut vs);
+                return (w::PositionLookup::Pair(wl::Lookup::new(wl::LookupFlag::empty(), subs)), Expect::Pair(m));
+            }
+            let subs = match c.style {
+                0 => {
+                    let x = small(0, &mut m, true);
+                    let b = big1(&mut m);
+                    let y = small(1, &mut m, true);
+                    vec![x, b, y]
+                }
+                1 => {
+                    let b = big1(&mut m);
+                    // one class of all BIG first glyphs x one class of seconds {0, 50, 300}
+                    let cd1: wl::ClassDef = firsts.iter().map(|g| (gid(*g), 1u16)).collect();
+                    let cd2: wl::ClassDef = [0u32, 50, 300].iter().map(|j| (gid(second_glyph(*j)), 1u16)).collect();
+                    let (e, (w1, w2)) = plain(27000);
+                    let zero = w::Class2Record::new(w::ValueRecord::new().with_explicit_value_format(w::ValueFormat::X_ADVANCE), w::ValueRecord::new());
+                    let rows = vec![w::Class1Record::new(vec![zero.clone(), zero.clone()]), w::Class1Record::new(vec![zero, w::Class2Record::new(w1, w2)])];
+                    for g1 in &firsts {
+                        for j in [0u32, 50, 300] {
+                            m.add_glyph_rule(*g1, second_glyph(j), e.clone());
+                        }
+                    }
+                    vec![b, w::PairPos::format_2(firsts.iter().map(|g| gid(*g)).collect(), cd1, cd2, rows)]
+                }
+                2 => {
+                    let b = big2(&mut m);
+                    let y = small(1, &mut m, true);
+                    vec![b, y]
+                }
+                _ => {
+                    let x = small(0, &mut m, true);
+                    let b = big2(&mut m);
+                    vec![x, b]
+                }
+            };
+            m.firsts.insert(outside);
+            m.seconds.extend([200u32, 201, 300].map(second_glyph));
+            (w::PositionLookup::Pair(wl::Lookup::new(wl::LookupFlag::empty(), subs)), Expect::Pair(m))
+        }
+        // SHARED PAIR SETS across split points. Hand-built PairPos format 1: k first glyphs, first
+        // glyph i uses PairSet (i mod t) of t = `last` distinct sets of m records each (identical
+        // PairSet tables are one object in the compiled graph, referenced from several split pieces).
+        "pair1_shared" => {
+            let (k, mm, t) = (c.a as u32, c.b as u32, c.last.max(1) as u32);
+            let mut m = PairModel::default();
+            let mut sets = vec![];
+            for i in 0..k {
+                let mut recs = vec![];
+                for j in 0..mm {
+                    let (e, wv) = direct_values(0, i % t, j);
+                    m.add_glyph_rule(first_glyph(c.cov, i), second_glyph(j), e);
+                    recs.push(w::PairValueRecord::new(gid(second_glyph(j)), wv.0, wv.1));
+                }
+                sets.push(w::PairSet::new(recs));
+            }
+            let cov: wl::CoverageTable = (0..k).map(|i| gid(first_glyph(c.cov, i))).collect();
+            let subs = vec![w::PairPos::format_1(cov, sets)];
+            (w::PositionLookup::Pair(wl::Lookup::new(wl::LookupFlag::empty(), subs)), Expect::Pair(m))
+        }
+        // SPLIT x ANCHOR DEVICES. Hand-built MarkBasePos: k mark classes with `last` marks each
+        // (mark t of the coverage has class t mod k, so coverage order interleaves the classes),
+        // m bases; every anchor (mark and base) has x / y device presence (t or i+j) mod 4 in
+        // {none, x only, y only, both} with content distinct per axis, side and rule; every 17th
+        // base anchor is missing. style = kind (0 Device, 1 VariationIndex, 2 x Device + y VariationIndex).
+        "mark_base_split_dev" => {
+            let (k, mm, per) = (c.a as u32, c.b as u32, c.last.max(1) as u32);
+            let mut marks = HashMap::new();
+            let mut bases: HashMap<u16, HashMap<String, RAnchor>> = HashMap::new();
+            let mut mark_glyphs = vec![];
+            let mut mark_recs = vec![];
+            for t in 0..k * per {
+                let g = first_glyph(c.cov, t);
+                let class = t % k;
+                let (e, a) = split_anchor(c.style, false, t, t % 4, t as i16 + 1, -(t as i16) - 1);
+                mark_glyphs.push(gid(g));
+                mark_recs.push(w::MarkRecord::new(class as u16, a));
+                marks.insert(g, (format!("c{class}"), e));
+            }
+            let mut base_glyphs = vec![];
+            let mut base_recs = vec![];
+            for j in 0..mm {
+                let g = second_glyph(j);
+                base_glyphs.push(gid(g));
+                let mut row = vec![];
+                for i in 0..k {
+                    let n = j * k + i;
+                    if n % 17 == 16 {
+                        row.push(None);
+                        continue;
+                    }
+                    let (e, a) = split_anchor(c.style, true, n, (i + j) % 4, (n % 30011) as i16, j as i16);
+                    row.push(Some(a));
+                    bases.entry(g).or_default().insert(format!("c{i}"), e);
+                }
+                base_recs.push(w::BaseRecord::new(row));
+            }
+            let sub = w::MarkBasePosFormat1::new(mark_glyphs.into_iter().collect(), base_glyphs.into_iter().collect(), w::MarkArray::new(mark_recs), w::BaseArray::new(base_recs));
+            (w::PositionLookup::MarkToBase(wl::Lookup::new(wl::LookupFlag::empty(), vec![sub])), Expect::MarkBase { marks, bases })
+        }
         // k marks (one class each) x m bases, every 17th base anchor missing
         _ => {
             let (k, mm) = (c.a as u32, c.b as u32);
@@ -766,6 +1111,167 @@ fn build_case(c: &Case) -> (w::PositionLookup, Expect) {
     }
 }
 
+/// Device table / VariationIndex content of device slot `s` of value record `r` of rule (i, j).
+/// Device: start size 10 + s + 4 r (names slot and record), three deltas in -2..=2 from
+/// (31 i + 7 j + 3 s) mod 125; VariationIndex: outer 1 + s + 4 r, inner (37 i + 11 j) mod 250.
+fn slot_device(kind: u8, s: usize, r: usize, i: u32, j: u32) -> (RDev, wl::DeviceOrVariationIndex, Option<wl::Device>) {
+    if kind == 1 || (kind == 2 && s % 2 == 1) {
+        let (o, inn) = (1 + s as u16 + 4 * r as u16, ((37 * i + 11 * j) % 250) as u16);
+        (RDev::VarIdx(o, inn), wl::VariationIndex::new(o, inn).into(), None)
+    } else {
+        let st = 10 + s as u16 + 4 * r as u16;
+        let h = (31 * i + 7 * j + 3 * s as u32) % 125;
+        let dv = [(h % 5) as i8 - 2, ((h / 5) % 5) as i8 - 2, ((h / 25) % 5) as i8 - 2];
+        let d = wl::Device::new(st, st + 2, &dv);
+        (RDev::expected(st, &dv), d.clone().into(), Some(d))
+    }
+}
+
+/// which slots of `mask` are non-null in record `r` of rule (i, j): the pattern number cycles
+/// through all 2^|mask| subsets along a row (3 is coprime to every power of two)
+fn split_nonnull(mask: u8, r: usize, i: u32, j: u32) -> u8 {
+    let n = mask.count_ones();
+    let p = (5 * i + 3 * j + 7 * r as u32 + i / 8) % (1 << n);
+    let mut out = 0u8;
+    let mut t = 0;
+    for s in 0..4 {
+        if mask & (1 << s) != 0 {
+            if p & (1 << t) != 0 {
+                out |= 1 << s;
+            }
+            t += 1;
+        }
+    }
+    out
+}
+
+fn split_value(s: usize, r: usize, j: u32) -> i16 {
+    100 * (r as i16 + 1) + 10 * s as i16 + (j % 7) as i16
+}
+
+/// hand-built value records of the split_slots family (`full`: every slot of the mask non-null;
+/// used to derive the value format). Value fields: xAdvance on record 1 always; a value in every
+/// EVEN slot of the mask (all records); devices per `split_nonnull`.
+fn split_direct(kind: u8, masks: [u8; 2], i: u32, j: u32, full: bool) -> ((RVal, RVal), (w::ValueRecord, w::ValueRecord)) {
+    let adv = ((i * 7 + j) % 30000) as i16 + 1;
+    let mut e = [RVal::default(), RVal::default()];
+    let mut wr = [w::ValueRecord::new().with_x_advance(adv), w::ValueRecord::new()];
+    e[0].v[2] = adv;
+    for r in 0..2 {
+        let nn = if full { masks[r] } else { split_nonnull(masks[r], r, i, j) };
+        for s in 0..4usize {
+            if masks[r] & (1 << s) == 0 {
+                continue;
+            }
+            let mut rec = std::mem::take(&mut wr[r]);
+            if s % 2 == 0 && !(s == 2 && r == 0) {
+                let v = split_value(s, r, j);
+                e[r].v[s] = v;
+                rec = if s == 0 { rec.with_x_placement(v) } else { rec.with_x_advance(v) };
+            }
+            if nn & (1 << s) != 0 {
+                let (ed, wd, _) = slot_device(kind, s, r, i, j);
+                e[r].dev[s] = Some(ed);
+                rec = match s {
+                    0 => rec.with_x_placement_device(wd),
+                    1 => rec.with_y_placement_device(wd),
+                    2 => rec.with_x_advance_device(wd),
+                    _ => rec.with_y_advance_device(wd),
+                };
+            }
+            wr[r] = rec;
+        }
+    }
+    let [e1, e2] = e;
+    let [w1, w2] = wr;
+    ((e1, e2), (w1, w2))
+}
+
+fn split_formats(kind: u8, masks: [u8; 2]) -> (w::ValueFormat, w::ValueFormat) {
+    let (_, (w1, w2)) = split_direct(kind, masks, 0, 0, true);
+    (w1.format(), w2.format())
+}
+
+/// builder-side value records of the split_slots family: a non-null slot has a value and a Device
+/// (the builder cannot express a device without its value); a null slot has neither
+fn split_builder(masks: [u8; 2], i: u32, j: u32) -> ((RVal, RVal), (ValueRecordBuilder, ValueRecordBuilder)) {
+    let adv = ((i * 7 + j) % 30000) as i16 + 1;
+    let mut e = [RVal::default(), RVal::default()];
+    let mut b = [ValueRecordBuilder::new().with_x_advance(adv), ValueRecordBuilder::new()];
+    e[0].v[2] = adv;
+    for r in 0..2 {
+        let nn = split_nonnull(masks[r], r, i, j);
+        for s in 0..4usize {
+            if nn & (1 << s) == 0 {
+                continue;
+            }
+            let v = if s == 2 && r == 0 { adv } else { split_value(s, r, j) };
+            let (ed, _, d) = slot_device(0, s, r, i, j);
+            let d = d.expect("kind 0 is a Device");
+            e[r].v[s] = v;
+            e[r].dev[s] = Some(ed);
+            let rec = std::mem::take(&mut b[r]);
+            b[r] = match s {
+                0 => rec.with_x_placement(v).with_x_placement_device(d),
+                1 => rec.with_y_placement(v).with_y_placement_device(d),
+                2 => rec.with_x_advance(v).with_x_advance_device(d),
+                _ => rec.with_y_advance(v).with_y_advance_device(d),
+            };
+        }
+    }
+    let [e1, e2] = e;
+    let [b1, b2] = b;
+    ((e1, e2), (b1, b2))
+}
+
+/// bytes of one row (format 2: m + 1 Class2Records; format 1: a PairSet of m records) — used
+/// only to choose k (the verdict never depends on it)
+fn split_row_bytes(c: &Case) -> u64 {
+    let masks = [(c.last & 15) as u8, ((c.last >> 4) & 15) as u8];
+    let (f1, f2) = if c.direct == 0 {
+        // the builder adds a value field for every device slot
+        let all = |m: u8, r: usize| 2 * (m | if r == 0 { 4 } else { 0 }).count_ones() as u64 + 2 * m.count_ones() as u64;
+        (all(masks[0], 0), all(masks[1], 1))
+    } else {
+        let (a, b) = split_formats(c.style, masks);
+        (2 * a.bits().count_ones() as u64, 2 * b.bits().count_ones() as u64)
+    };
+    if c.direct == 2 {
+        2 + 2 + c.b * (2 + f1 + f2)
+    } else {
+        (c.b + 1) * (f1 + f2) + 4
+    }
+}
+
+/// hand-built anchor of the mark_base_split_dev family: pattern 0 none (format 1), 1 x device,
+/// 2 y device, 3 both; x and y content always differ; mark-side and base-side content differ
+fn split_anchor(kind: u8, is_base: bool, n: u32, pattern: u32, x: i16, y: i16) -> (RAnchor, w::AnchorTable) {
+    let dev = |axis: u32| -> (RDev, wl::DeviceOrVariationIndex) {
+        if kind == 1 || (kind == 2 && axis == 1) {
+            let (o, inn) = (1 + axis as u16 + 2 * is_base as u16, (n % 250) as u16);
+            (RDev::VarIdx(o, inn), wl::VariationIndex::new(o, inn).into())
+        } else {
+            let st = 10 + axis as u16 + 2 * is_base as u16;
+            let h = (n * 7 + axis) % 125;
+            let dv = [(h % 5) as i8 - 2, ((h / 5) % 5) as i8 - 2, ((h / 25) % 5) as i8 - 2];
+            (RDev::expected(st, &dv), wl::Device::new(st, st + 2, &dv).into())
+        }
+    };
+    let (mut ex, mut ey, mut wx, mut wy) = (None, None, None, None);
+    if pattern & 1 != 0 {
+        let (e, d) = dev(0);
+        ex = Some(e);
+        wx = Some(d);
+    }
+    if pattern & 2 != 0 {
+        let (e, d) = dev(1);
+        ey = Some(e);
+        wy = Some(d);
+    }
+    let a = if pattern == 0 { w::AnchorTable::format_1(x, y) } else { w::AnchorTable::format_3(x, y, wx, wy) };
+    (RAnchor { x, y, point: None, xdev: ex, ydev: ey }, a)
+}
+
 /// direct write-side values for style 3 (variation index) and the other styles
 fn direct_values(style: u8, i: u32, j: u32) -> ((RVal, RVal), (w::ValueRecord, w::ValueRecord)) {
     let adv = ((i * 7 + j) % 30000) as i16 + 1;
@@ -794,9 +1300,27 @@ fn direct_values(style: u8, i: u32, j: u32) -> ((RVal, RVal), (w::ValueRecord, w
     ((e1, e2), (w1, w2))
 }
 
+/// Lookup qualifiers of the lookup under test (sweep families only; the fillers and the small
+/// families keep an empty flag): 0 none; 1 RIGHT_TO_LEFT | IGNORE_MARKS | mark attachment class 3;
+/// 2 IGNORE_LIGATURES | USE_MARK_FILTERING_SET with mark filtering set 7
+fn lookup_qualifiers(c: &Case) -> (u16, Option<u16>) {
+    if !is_sweep(c) {
+        return (0, None);
+    }
+    match (c.a + c.last + c.style as u64 + c.cov as u64) % 3 {
+        0 => (0, None),
+        1 => (0x0309, None),
+        _ => (0x0014, Some(7)),
+    }
+}
+
+/// families in which every case is valid input that the unmodified compiler compiles: a
+/// `PackingFailed` answer yields nothing for any pair and is a violation ("data of any size")
+const REFUSAL_IS_VIOLATION: [&str; 8] = ["split_slots", "mark_base_split_dev", "pair2_multi", "subtable_order", "pair1_shared", "pair1_threshold", "pair2_threshold", "mark_base_threshold"];
+
 /// families that sweep sizes across the 64 KiB split boundaries
 fn is_sweep(c: &Case) -> bool {
-    c.family.ends_with("threshold") || c.family == "mark_base_shared"
+    c.family.ends_with("threshold") || c.family == "mark_base_shared" || ["split_slots", "mark_base_split_dev", "pair2_multi", "subtable_order", "pair1_shared"].contains(&c.family.as_str())
 }
 
 pub struct Outcome {
@@ -822,12 +1346,28 @@ pub fn check(c: &Case) -> Result<Outcome, (String, String)> {
 fn check_impl(c: &Case, count_only: bool) -> Result<Outcome, (String, String)> {
     let e = |cl: &str, d: String| Err((cl.to_string(), d));
     let built = guard(|| {
-        let (lookup, expect) = build_case(c);
+        let (mut lookup, expect) = build_case(c);
+        // lookup qualifiers must survive splitting and extension promotion
+        let (flag, mfs) = lookup_qualifiers(c);
+        match &mut lookup {
+            w::PositionLookup::Pair(l) => {
+                l.lookup_flag = wl::LookupFlag::from_bits_truncate(flag);
+                l.mark_filtering_set = mfs;
+            }
+            w::PositionLookup::MarkToBase(l) => {
+                l.lookup_flag = wl::LookupFlag::from_bits_truncate(flag);
+                l.mark_filtering_set = mfs;
+            }
+            _ => {}
+        }
         let mut lookups = vec![];
         let mut fill_models = vec![];
         for n in 0..c.filler as u32 {
             let mut m = PairModel::default();
-            lookups.push(filler_lookup(n, &mut m));
+            // filler = 3: the first filler is itself larger than 64 KiB, so two lookups of the table
+            // are split (and promoted) in one compilation
+            let rows = if c.filler == 3 && n == 0 { 80 } else { 30 };
+            lookups.push(filler_lookup(n, rows, &mut m));
             fill_models.push(m);
         }
         // the lookup under test sits in the middle of the fillers
@@ -842,7 +1382,7 @@ fn check_impl(c: &Case, count_only: bool) -> Result<Outcome, (String, String)> {
     };
     let bytes = match bytes {
         Ok(b) => b,
-        Err(write_fonts::error::Error::PackingFailed(_)) if c.family == "mark_base_shared" => {
+        Err(write_fonts::error::Error::PackingFailed(_)) if c.family == "mark_base_shared" || REFUSAL_IS_VIOLATION.contains(&c.family.as_str()) => {
             // the statement covers mark-to-base data "of any size": valid input of this family must
             // compile (the unmodified compiler does compile it); a refusal yields nothing at all
             return e("compile failed on valid input", "dump_table returned PackingFailed".to_string());
@@ -883,6 +1423,10 @@ fn check_impl(c: &Case, count_only: bool) -> Result<Outcome, (String, String)> {
         }
     }
     let lk = &lookups[at];
+    let (flag, mfs) = lookup_qualifiers(c);
+    if lk.lookup_flag != flag || lk.mark_filtering_set != mfs {
+        return e("lookup flag / mark filtering set differs", format!("read back flag {:#06x} set {:?}, input flag {flag:#06x} set {mfs:?} ({} sub-tables, type {})", lk.lookup_flag, lk.mark_filtering_set, lk.subs.len(), lk.lookup_type));
+    }
     let mut device_decode_note: Option<String> = None;
     match &expect {
         Expect::Pair(m) => {
@@ -984,6 +1528,16 @@ pub fn run_case(run: &Run, c: &Case, l: &mut Local) -> Option<Outcome> {
             }
             if o.refused {
                 *l.c.entry("refused(PackingFailed)").or_insert(0) += 1;
+                let by_family: &'static str = match c.family.as_str() {
+                    "pair1_threshold" => "refused(PackingFailed)[pair1_threshold]",
+                    "pair2_threshold" => "refused(PackingFailed)[pair2_threshold]",
+                    "mark_base_threshold" => "refused(PackingFailed)[mark_base_threshold]",
+                    "split_slots" => "refused(PackingFailed)[split_slots]",
+                    "mark_base_split_dev" => "refused(PackingFailed)[mark_base_split_dev]",
+                    "pair2_multi" => "refused(PackingFailed)[pair2_multi]",
+                    _ => "refused(PackingFailed)[small families]",
+                };
+                *l.c.entry(by_family).or_insert(0) += 1;
                 return Some(o);
             }
             let mut h = Fnv::new();
@@ -1136,6 +1690,12 @@ fn pair1_size(k: u64, m: u64, last: u64, rec: u64) -> u64 {
 
 pub fn part_c(run: &Run) {
     let quick = run.tier == Tier::Quick;
+    // development aid (never set by ./check): only the families added in round 12
+    let new_only = std::env::var("C16_NEW_ONLY").is_ok();
+    if new_only {
+        run.cap_hit("C16_NEW_ONLY set: the threshold sweeps were skipped");
+    }
+    if !new_only {
     // ---- PairPos format 1: m = 100 seconds per first glyph; the last first glyph's record count
     // sweeps the compiled size across n x 64 KiB one record at a time
     let mut cases = vec![];
@@ -1156,8 +1716,11 @@ pub fn part_c(run: &Run) {
             } else {
                 (0..=m).collect()
             };
-            for cov in 0..3u8 {
-                if quick && cov != (style % 3) && !(splits == 1 && style == 0) && !(cov == 2 && style == 0) {
+            for cov in 0..4u8 {
+                if cov == 3 && !(style == 0 && splits <= 2 || style == 4 && splits == 1) {
+                    continue;
+                }
+                if quick && cov < 3 && cov != (style % 3) && !(splits == 1 && style == 0) && !(cov == 2 && style == 0) {
                     continue;
                 }
                 // the single-slot device styles: in quick only across the first split boundary
@@ -1198,12 +1761,12 @@ pub fn part_c(run: &Run) {
     // styles 4 and 5: BOTH value records of every Class2Record carry their own, distinct
     // Device / VariationIndex tables (5 by direct construction)
     for style in [0u8, 1, 2, 4, 5] {
-        for cov in [0u8, 2] {
-            if quick && cov == 2 && style != 1 {
+        for cov in [0u8, 2, 3] {
+            if quick && cov == 2 && style != 1 || cov == 3 && style != 0 && style != 4 {
                 continue;
             }
             for target in 2..=4usize {
-                if quick && style >= 4 && target > 3 {
+                if quick && (style >= 4 || cov == 3) && target > 3 {
                     continue;
                 }
                 combos.push((style, cov, target));
@@ -1311,6 +1874,182 @@ pub fn part_c(run: &Run) {
     }
     let outs = run_cases(run, &cases, "MarkBasePos with shared anchors (k single-mark classes x 500 bases; share pattern {all distinct, one anchor per base, pairwise, shared Device}; k swept one class at a time across the sub-table boundaries; a compile failure is a violation)");
     report_split_histogram(run, "mark_base_shared", &cases, &outs);
+    }
+    // ---- SPLIT x DEVICE SLOTS (see build_case "split_slots"): 20 columns; k rows from a byte
+    // target (80 000: two pieces; 150 000 / 220 000: three or more)
+    let rot = |m: u64| ((m << 1) | (m >> 3)) & 15;
+    let mk = |route: u8, kind: u8, m1: u64, m2: u64, target: u64, filler: u8| -> Case {
+        let mut c = Case { family: "split_slots".into(), a: 0, b: 20, last: m1 | m2 << 4, style: kind, cov: [0u8, 2, 1, 3][((m1 + 2 * m2) % 4) as usize], filler, direct: route };
+        c.a = target / split_row_bytes(&c) + 1;
+        c
+    };
+    let mut cases = vec![];
+    // the 45 mask placements: every non-empty format mask M on record 1 only, on record 2 only, and
+    // on both (M on record 1, M rotated by one slot on record 2)
+    let placements: Vec<(u64, u64)> = (1..16u64).flat_map(|m| [(m, 0), (0, m), (m, rot(m))]).collect();
+    let both: Vec<(u64, u64)> = (1..16u64).map(|m| (m, rot(m))).collect();
+    if quick {
+        for (m1, m2) in &placements {
+            cases.push(mk(1, 0, *m1, *m2, 80_000, 0));
+        }
+        for (m1, m2) in &both {
+            cases.push(mk(1, 1, *m1, *m2, 80_000, 0));
+            cases.push(mk(1, 0, *m1, *m2, 150_000, 0));
+            cases.push(mk(0, 0, *m1, *m2, 80_000, 0));
+        }
+        cases.push(mk(1, 2, 15, 15, 80_000, 0));
+        for (m1, m2) in [(15, 15), (5, 10)] {
+            cases.push(mk(1, 1, m1, m2, 150_000, 0));
+        }
+        for (m1, m2) in [(15, 15), (6, 0), (0, 6)] {
+            cases.push(mk(0, 0, m1, m2, 150_000, 0));
+        }
+        for m in [15u64, 6, 2, 4, 9] {
+            cases.push(mk(2, 0, m, rot(m), 80_000, 0));
+        }
+        cases.push(mk(2, 1, 15, 15, 80_000, 0));
+        for (m1, m2) in [(15, 15), (6, 9), (2, 4)] {
+            cases.push(mk(1, 0, m1, m2, 80_000, 2));
+        }
+        cases.push(mk(1, 1, 15, 15, 80_000, 2));
+        cases.push(mk(2, 0, 15, 15, 80_000, 2));
+        cases.push(mk(1, 0, 15, 15, 80_000, 3));
+        cases.push(mk(0, 0, 6, 9, 80_000, 3));
+    } else {
+        for (m1, m2) in &placements {
+            for target in [80_000u64, 150_000, 220_000] {
+                for kind in 0..3u8 {
+                    cases.push(mk(1, kind, *m1, *m2, target, 0));
+                    if target < 220_000 {
+                        cases.push(mk(2, kind, *m1, *m2, target, 0));
+                    }
+                }
+                cases.push(mk(0, 0, *m1, *m2, target, 0));
+            }
+        }
+        for (m1, m2) in &both {
+            for kind in 0..2u8 {
+                cases.push(mk(1, kind, *m1, *m2, 80_000, 2));
+                cases.push(mk(2, kind, *m1, *m2, 80_000, 2));
+            }
+            cases.push(mk(0, 0, *m1, *m2, 80_000, 2));
+            cases.push(mk(1, 0, *m1, *m2, 80_000, 3));
+        }
+    }
+    let outs = run_cases(run, &cases, "Split x device slots: pair rules with sparse device slots (every format mask of the 4 slots on record 1 / record 2 / both; every null/non-null subset of the mask in every row) in sub-tables that must be split (hand-built format 2, PairPosBuilder class pairs, hand-built format 1; 2 and >=3 pieces; with and without extension promotion); Device and VariationIndex content compared per slot for every glyph pair");
+    report_split_histogram(run, "split_slots", &cases, &outs);
+    run.count("split_slots_cases_with_3plus_pieces", outs.iter().filter(|o| o.1 >= 3).count() as u64);
+    if outs.len() == cases.len() {
+        for route in 0..3u8 {
+            let n = outs.iter().filter(|o| cases[o.0].direct == route && o.1 >= 2).count();
+            if n == 0 {
+                run.machinery_error(&format!("split_slots route {route}: no case was split"));
+            }
+        }
+        if !outs.iter().any(|o| o.1 >= 3) {
+            run.machinery_error("split_slots: no case was split into three or more pieces");
+        }
+    }
+
+    // ---- multi-glyph classes in a split PairPos format 2 (see build_case "pair2_multi")
+    let mut cases = vec![];
+    let pm = |layout: u64, g: u64, direct: u8, style: u8, target: u64, filler: u8| -> Case {
+        // the target counts the Class1Records alone, so the sub-table must be split whatever the
+        // coverage / class def sizes are
+        let rec = match style {
+            0 => 2,
+            1 => 6,
+            2 => 4,
+            _ => 8,
+        };
+        Case { family: "pair2_multi".into(), a: target / (11 * rec) + 1, b: 10, last: g | layout << 8, style, cov: 0, filler, direct }
+    };
+    // first glyphs must stay below the second glyphs (30000..)
+    let fits = |c: &Case| 100 + c.a * ((c.last & 255) + 1) < 29_000;
+    for layout in 0..3u64 {
+        for g in if quick { vec![3u64, 8] } else { vec![2u64, 3, 5, 8, 13] } {
+            for direct in 0..2u8 {
+                for target in if quick { vec![90_000u64, 170_000] } else { vec![60_000u64, 90_000, 130_000, 170_000, 250_000] } {
+                    let c = pm(layout, g, direct, if direct == 1 { 4 } else { 1 }, target, 0);
+                    if fits(&c) {
+                        cases.push(c);
+                    }
+                }
+            }
+        }
+        cases.push(pm(layout, 8, 0, 2, 90_000, 0));
+        cases.push(pm(layout, 5, 1, 4, 90_000, 0));
+    }
+    cases.push(pm(1, 8, 0, 1, 90_000, 2));
+    cases.push(pm(2, 8, 1, 4, 90_000, 2));
+    let outs = run_cases(run, &cases, "PairPos format 2 with multi-glyph classes, split (k first classes of g glyphs in block / strided / varied-size layouts x 10 second classes of 3 glyphs; PairPosBuilder and hand-built; a compile failure is a violation)");
+    report_split_histogram(run, "pair2_multi", &cases, &outs);
+
+    // ---- sub-table order across a split (see build_case "subtable_order")
+    let mut cases = vec![];
+    for style in 0..6u8 {
+        let ks: Vec<u64> = match (style < 2 || style >= 4, quick) {
+            (true, true) => if style == 5 { vec![420, 700] } else { vec![200, 420] },
+            (true, false) => vec![150, 170, 200, 330, 420, 600],
+            (false, true) => vec![1200, 2300],
+            (false, false) => vec![900, 1000, 1200, 1900, 2300, 3000],
+        };
+        for (n, k) in ks.iter().enumerate() {
+            for cov in [0u8, 2] {
+                if quick && cov == 2 && n > 0 {
+                    continue;
+                }
+                cases.push(Case { family: "subtable_order".into(), a: *k, b: 0, last: 0, style, cov, filler: 0, direct: 1 });
+            }
+            if n == 0 {
+                cases.push(Case { family: "subtable_order".into(), a: *k, b: 0, last: 0, style, cov: 0, filler: 2, direct: 1 });
+                if style % 2 == 0 || !quick {
+                    cases.push(Case { family: "subtable_order".into(), a: *k, b: 0, last: 0, style, cov: 0, filler: 3, direct: 1 });
+                }
+            }
+        }
+    }
+    let outs = run_cases(run, &cases, "Sub-table order across a split: hand-built lookups [small, BIG format 1, small], [BIG format 1, small format 2], [BIG format 2, small], [small, BIG format 2] with overlapping rules; first match must not change when BIG is replaced by its pieces (and promoted)");
+    report_split_histogram(run, "subtable_order", &cases, &outs);
+
+    // ---- PairSets shared across split points (see build_case "pair1_shared")
+    let mut cases = vec![];
+    for (k, mm, t) in if quick { vec![(36u64, 2500u64, 9u64), (20, 5000, 4)] } else { vec![(36, 2500, 9), (20, 5000, 4), (40, 2500, 7), (30, 5000, 5), (64, 1200, 60)] } {
+        for filler in [0u8, 2] {
+            cases.push(Case { family: "pair1_shared".into(), a: k, b: mm, last: t, style: 0, cov: 1, filler, direct: 1 });
+        }
+    }
+    let outs = run_cases(run, &cases, "PairPos format 1 with PairSets shared between first glyphs on both sides of split points (k first glyphs cycling through t identical-by-content PairSets of m records); a compile failure is a violation");
+    report_split_histogram(run, "pair1_shared", &cases, &outs);
+
+    // ---- SPLIT x ANCHOR DEVICES (see build_case "mark_base_split_dev"): 200 bases
+    let mut cases = vec![];
+    let mb = |k: u64, per: u64, kind: u8, filler: u8| Case { family: "mark_base_split_dev".into(), a: k, b: 200, last: per, style: kind, cov: 0, filler, direct: 1 };
+    if quick {
+        for kind in 0..3u8 {
+            cases.push(mb(40, 2, kind, 0));
+            cases.push(mb(70, 2, kind, 0));
+        }
+        cases.push(mb(40, 2, 0, 2));
+        cases.push(mb(40, 2, 1, 3));
+        cases.push(mb(20, 2, 2, 0));
+    } else {
+        for kind in 0..3u8 {
+            for per in 1..=3u64 {
+                for k in (18..=100u64).step_by(4) {
+                    cases.push(mb(k, per, kind, 0));
+                }
+            }
+            cases.push(mb(40, 2, kind, 2));
+            cases.push(mb(70, 2, kind, 2));
+        }
+    }
+    let outs = run_cases(run, &cases, "Split x anchor devices: hand-built MarkBasePos, k mark classes x 2 marks (classes interleaved in coverage order) x 200 bases, x / y device presence {none, x, y, both} on mark and base anchors with distinct Device / VariationIndex content, every 17th base anchor missing; 1, 2 and >=3 pieces");
+    report_split_histogram(run, "mark_base_split_dev", &cases, &outs);
+    run.bound("split_device_families", json!({
+        "split_slots": "20 columns; k rows from byte targets 80 000 (2 pieces) / 150 000 (>=3) [thorough also 220 000]; format masks: all 15 non-empty subsets of {xPla,yPla,xAdv,yAdv} devices on record 1 only / record 2 only / both (45 placements); per-record null/non-null pattern cycles through all subsets of the mask; kinds {Device, VariationIndex, mixed}; routes {hand-built format 2, PairPosBuilder::insert_classes, hand-built format 1}; quick: 45 placements x Device + 15 'both' placements x {VariationIndex, 3 pieces, builder} + representatives for format 1, mixed, fillers; thorough: full product",
+        "mark_base_split_dev": "k in {20,40,70} (quick) / 18..=100 step 4 x marks per class 1..=3 (thorough) x kinds {Device, VariationIndex, mixed} x 200 bases, 0 or 2 filler lookups",
+    }));
     run.bound("threshold_families", json!({
         "pair1": "k first glyphs x 100 seconds, value styles {xAdv, xAdv+yPla|xPla, xAdv+Device, xAdv+VariationIndex(direct), xAdv+Device|xPla+Device, xAdv + Device alone in the xPla / yPla / yAdv slot}, coverage styles {contiguous, alternate, runs}, last pair set swept (quick: crossing +-3 records; thorough: 0..=100), k at 1x/2x/3x 64 KiB, with 0 or 2 filler lookups",
         "pair2": "k x 51 singleton classes, k within +-3 (quick) / +-12 (thorough) of the first k giving 2, 3, 4 sub-tables; 5 value styles incl. two where both value records of every Class2Record have their own distinct Device / VariationIndex tables (one by direct construction); 0 or 2 filler lookups",
